@@ -19,8 +19,14 @@ CFG = {
             "their own (1/8 of the placements) or anywhere on the screen (1/24), every Resize reports the pixel size of the real resizeImage result and the "
             "real cellPixelSize. Round 3: kitty draws into tight windows (0..5 x 0..3 cells; about 1 in 11 draws is refused as too large), 400 rescaled block images of "
             "kinds half/full (image.NRGBA source) and halfp/fullp (image.RGBA source), half of them translucent, up to 9x12 px into boxes down to 1x1, compared cell by cell with the scaler model; unscaled "
-            "premultiplied 1x2 images at every alpha level. A case = one #case block; distinct by its op list; "
+            "premultiplied 1x2 images at every alpha level. Round 4: 600 (thorough 6000) block images with real *image.Gray and *image.Paletted (color.NRGBA palette, half of them with translucent entries) "
+            "sources, 2/3 rescaled; every rendered frame reports ALL graphics commands in the order written (Q=: delete / place / complete PNG transmission with its pixel size / sixel). A case = one #case block; distinct by its op list; "
             "non-trivial = not a bare state snapshot",
+    "technique": "Lean 4 proof over executable models of image.go / vaxis.go render / window.go Clear whose arm structure, guards, loops and statement order are regenerated from the source and INTERPRETED "
+                 "(resizeImage arms, cellPixelSize, Resize arithmetic, Draw gates, render's placement stretch in source order, the kitty upload bodies, the block Draw loops); induction over all "
+                 "application histories with invariants (placement_diff; terminal table = last frame; terminal data = last Resize) against an order-sensitive model of the terminal's kitty tables; exact integer reasoning for the "
+                 "float steps under the standard model of floating-point arithmetic; kernel evaluation over all 8-bit (alpha, channel) pairs; differential correspondence on real images / a fake console with the property oracles "
+                 "(incl. the terminal model run on the implementation's ordered command sequence) evaluated on the implementation",
     "trusted_base": [
         "float64 steps of resizeImage are a parameter of the model. Below 2^26 in every dimension (image and box) the theorems need only the standard model of floating-point arithmetic "
         "(Lemmas.FloatStd.StdModel: each operation within relative error 2^-53 of its exact result and a function of it, exact truncation, exact conversion of integers below 2^53 - what IEEE-754 "
@@ -28,14 +34,18 @@ CFG = {
         "factors is exact; int((a/b)*x) lies in [ceil(q)-1, floor(q)] for q = a*x/b); signed boxes use the same parameter through the sign "
         "symmetry of IEEE division, multiplication and truncation. The driver instantiates the parameter with IEEE doubles (same operations, "
         "same order as the Go code) and asserts Sound on every value it sees (DESIGN 3.5)",
-        "draw.NearestNeighbor.Scale is modelled (Model/Scaler.lean: index formula and the NRGBA/RGBA fast paths of golang.org/x/image v0.9.0 draw/impl.go, hand-transcribed from the "
-        "module cache - not regenerated by the extractor) and tied by the block streams (every rescaled image compared cell by cell); sources of other concrete image types, the Copy shortcut "
+        "draw.NearestNeighbor.Scale is modelled (Model/Scaler.lean: index formula, the NRGBA/RGBA fast paths, the generic path scale_RGBA_Image_* and the Gray fast path of golang.org/x/image v0.9.0 draw/impl.go, hand-transcribed from the "
+        "module cache - not regenerated by the extractor) and tied by the block streams (every rescaled image compared cell by cell); other source types are covered through the hypothesis SameAs (seen through At().RGBA() the source is pixel for pixel an "
+        "NRGBA image: proved for *image.Gray, checked at run time for *image.Gray and *image.Paletted); *image.YCbCr and 16-bit types, the Copy shortcut "
         "for equal sizes (proved unreachable from resizeImage under Sound), the PNG / base64 / sixel encoders and octreequant are not modelled",
-        "Go's image/color conversions NRGBA.RGBA() / RGBA.RGBA() are transcribed in Spec.Images (nrgbaRGBA, rgbaRGBA) and "
-        "validated by the nrgba / rgba / half / full streams; At() outside the bounds = zero colour (image.NRGBA / image.RGBA)",
+        "Go's image/color conversions NRGBA.RGBA() / RGBA.RGBA() / Gray.RGBA() are transcribed in Spec.Images (nrgbaRGBA, rgbaRGBA, grayRGBA) and "
+        "validated by the nrgba / rgba / half / full streams; since the F320 repair the block renderers do not call At() outside the bounds (the former assumption 'outside = zero colour' is gone)",
+        "the terminal's side of the kitty graphics protocol (Model/KittyTerm.lean Term.apply: data table by image id, placement table by (image id, col, row); a=p replaces, a=d,d=i removes the addressed placement) is written from the protocol "
+        "document; it is lenient about retransmission (kitty drops the placements of a retransmitted image: Term.applyDrop, witness retransmission_drops_kept_placements); in the correspondence run image data is identified by the pixel size of the transmitted PNG",
         "C11's window model (Model/Window.lean, Props.C11.drawops_clip) for the clipping of the Draw methods",
-        "Gen/ImageFlow.lean pins statement texts of what is still hand-transcribed (the kitty upload closure and upload side of Resize, the block Draw loops); "
-        "cellPixelSize, the cell arithmetic of both Resize methods, the Draw gates, the lower-pixel read of FullBlockImage.Resize and the statement skeleton of render's placement loops are structured Gen data the model interprets"],
+        "Gen/ImageFlow.lean pins as text only the format strings of the four kitty commands (data the harness's parser depends on); "
+        "cellPixelSize, the cell arithmetic of both Resize methods, the Draw gates, the lower-pixel reads of both block Resize methods, the statement skeleton AND ORDER of render's placement stretch, the kitty upload bodies (Resize goroutine, writeTo closure), "
+        "the placement id expression and the block Draw loops are structured Gen data the model interprets (the leaves of render's loops are recognised by their text)"],
     "level_text": "Proved for all inputs (Lean, no bound): fit, no_upscale, aspect, no_panic and the CellSize corollaries for "
                   "kitty/sixel/half/full over the arm structure regenerated from image.go, for every float step meeting Sound; round 2: no_panic_term "
                   "(no division by zero for ANY terminal report, F52 repaired), fit_term, CellSize exactly = cells the resized pixels occupy "
@@ -50,17 +60,25 @@ CFG = {
                   "(the round-2 hypothesis ScalerPicks is a theorem), half_pipeline_opaque / full_pipeline_opaque (stored image -> fit test -> any float step -> scaling -> cells: each cell shows exactly the colours / the "
                   "mean of two named source pixels under it), half_pipeline_transparency / full_pipeline_transparency (EVERY NRGBA/RGBA image, scaled or not: the alpha the renderer tests is the source pixel's alpha byte, so each cell is decided by the two source alphas against 50 exactly as the property says), scale_shrinks (Copy shortcut unreachable), translucent_scaled (alpha kept, channel loses at most 255/a + 1, all 255x256 pairs); F220 (odd-height full-block "
                   "last row at half brightness) found and repaired; cellPixelSize / Resize arithmetic / Draw gates interpreted from structured Gen data (cell_pixel_size_shape, resize_shape, draw_gates_shape, render_shape); "
-                  "fit_no_upscale_aspect_std: fit, no upscale and aspect for every image and box below 2^26 per dimension WITHOUT the hypothesis Sound, from the standard model of floating-point arithmetic by exact integer reasoning (sound_in_range).",
+                  "fit_no_upscale_aspect_std: fit, no upscale and aspect for every image and box below 2^26 per dimension WITHOUT the hypothesis Sound, from the standard model of floating-point arithmetic by exact integer reasoning (sound_in_range). "
+                  "Round 4: the kitty upload bodies and the block Draw loops are interpreted from regenerated statement forms (kitty_resize_body_eq_model, kitty_write_body_eq_model - semantic, block_draw_body_eq_model for every image); render's placement stretch is interpreted "
+                  "in SOURCE ORDER (render_order_shape) and refined to an order-sensitive terminal: terminal_table_is_last_frame / terminal_shows_what_was_drawn - for ALL histories of Resize/Draw/Clear/Render/Refresh whose frames hold no image twice at one origin in two sizes, "
+                  "the terminal's placement table (commands applied in emission order) is exactly the table of the last frame; order_matters (the loops swapped: false); placement_id_injective over the regenerated id expression; data_is_latest / written_with_latest_data - all histories, "
+                  "no hypothesis: a written placement finds the data of the image's last successful Resize on the terminal (re-upload after a second Resize); half_pipeline_translucent / full_pipeline_translucent - ONE statement per renderer for the colours of every cell of every "
+                  "stored NRGBA image, scaled or not, translucent included (decision by the source alphas against 50 AND colours standing for the source pixels under the cell within 255/a + 1 levels); generic_path_eq_fast_path (sources of other types under the stated hypothesis SameAs, "
+                  "gray_same_as_nrgba proved); F320 (HalfBlockImage drew what At() answers outside the bounds - black for image.Gray, palette[0] for image.Paletted - under the last row of an odd-height image) found and repaired, half_block_bottom_shape.",
     "level_note": "Validated by correspondence only: that the model is the code (VerifResizeDims / VerifToRGB / VerifAverageColor / "
                   "real block images / real kitty and sixel placements on a fake console incl. degenerate pixel reports, signed boxes, windows of their "
                   "own; 0 mismatches), the float hypothesis on the values seen. Oracles on the implementation independent of the model: fit / no-upscale / "
                   "aspect, cell geometry, CellSize = ceil(px/cell) exactly, negative box => empty, glyph table and colours, mustWrite / mustDelete, kitty "
                   "placement inside its window (F120), rescaled opaque images show colours of source pixels under each cell (independent of the index formula), last odd row of a full-block image "
-                  "in its own colour (F220). That the scaler model is x/image's code (hand-transcribed, tied by about 1 600 rescaled images per quick run). Modelled, not verified: per-cell statements for translucent rescaled "
-                  "images (only the per-pixel bound), nothing about the content of the PNG / sixel data.",
+                  "in its own colour (F220); round 4: the order-sensitive terminal model run on the implementation's ORDERED command sequence - every a=p finds the data of the image's last Resize, after every frame the terminal's table = the (image, origin) pairs the application drew "
+                  "(not judged from a frame with a key clash on: keyfun_needed); the hypothesis SameAs for *image.Gray / *image.Paletted sources (600 images per quick run through the real scaler and renderers). That the scaler model is x/image's code (hand-transcribed, tied by about 1 600 rescaled images per quick run). Modelled, not verified: the strict terminal Term.applyDrop (only a witness), *image.YCbCr / 16-bit sources (not modelled), "
+                  "nothing about the content of the PNG / sixel data beyond the PNG's pixel size.",
     "assumptions": ["image dimensions >= 1 (empty images are out of scope); box dimensions are any Int (round 2)",
                     "col,row of a placement within 0..65535 (the kitty placement id packs col<<16|row)",
                     "fit_no_upscale_aspect_std: every dimension of image and box below 2^26 and the standard model of floating-point arithmetic (StdModel); the other fit theorems: Sound",
-                    "the pipeline theorems about pixels: source of concrete type *image.NRGBA or *image.RGBA (the scaler's fast paths); *_opaque: every stored alpha byte 0xff"],
+                    "the pipeline theorems about pixels: source of concrete type *image.NRGBA or *image.RGBA (the scaler's fast paths), or any type meeting SameAs (generic_path_eq_fast_path); *_opaque: every stored alpha byte 0xff; *_translucent: *image.NRGBA",
+                    "terminal_table_*: no frame holds one image twice at one origin in two sizes (FramesKeyFun; needed: keyfun_needed); the terminal keeps an image's placements when its data is retransmitted"],
     "timeout": 1800,
 }
